@@ -103,6 +103,8 @@ class Ctx:
         v = self.violations.setdefault(mechanism, {'count': 0, 'witnesses': []})
         v['count'] += 1
         if len(v['witnesses']) < MAX_WITNESS_PER_MECH:
+            if getattr(self, 'debug_logging', False) and isinstance(witness, dict):
+                witness = dict(witness, debug_logging=True)
             v['witnesses'].append(witness)
 
     def inconclusive_because(self, reason: str):
@@ -210,6 +212,17 @@ class Ctx:
         }
 
 
+def enable_debug_logging(ctx):
+    import logging
+    lg = logging.getLogger('cardutil')
+    lg.addHandler(logging.NullHandler())
+    lg.propagate = False
+    lg.setLevel(logging.DEBUG)
+    logging.disable(logging.NOTSET)         # env.setup() silences logging for speed; here it is wanted
+    logging.getLogger().setLevel(logging.CRITICAL)
+    ctx.debug_logging = True                # recorded in every witness so that a replay switches it on too
+
+
 def run_shard(mod, ctx, time_cap=None):
     """Canaries, then the workload.  Returns the dump."""
     t0 = time.time()
@@ -220,6 +233,11 @@ def run_shard(mod, ctx, time_cap=None):
     if getattr(ctx, 'online_wanted', None):
         ctx.install_online_monitors(ctx.online_wanted)
     sentinel.install(per_thread=getattr(mod, 'PER_THREAD_STEPS', False))
+    if ctx.nshards > 1 and ctx.shard == ctx.nshards - 1:
+        # one shard in sixteen - a slice of every case class, since cases are dealt round-robin - runs with the library's
+        # DEBUG logging switched on (what `--debug` does in the command-line tools): no statement depends on the log level
+        enable_debug_logging(ctx)
+        ctx.count('shards run with the library\'s DEBUG logging switched on')
     if ctx.shard == 0:
         mod.canaries(ctx)
     capped = False
